@@ -28,6 +28,9 @@ type WChain struct {
 	Custody  map[string]*big.Int            // token -> locked amount, external units
 	Paid     map[string]*big.Int            // token -> total paid out by executed batches
 	SSNonce  uint64                         // last signer set nonce the external side adopted
+	// CheckFunds makes execution depend on the chain's own custody (solvency
+	// histories); otherwise the chain is assumed to be funded from elsewhere.
+	CheckFunds bool
 }
 
 func NewWChain(name string) *WChain {
@@ -50,9 +53,35 @@ func (w *WChain) lock(token string, amt *big.Int) {
 	w.Custody[token].Add(w.Custody[token], amt)
 }
 
+func batchOut(b *mtypes.BatchTx) *big.Int {
+	out := new(big.Int)
+	// Hub2.submitBatch transfers _amounts[i] to _destinations[i] only (fees stay in the
+	// contract and are re-minted on the hub); the Minter multisend carries Token.Amount only.
+	for _, tx := range b.Transactions {
+		out.Add(out, tx.Token.Amount.BigInt())
+	}
+	return out
+}
+
+// Funded tells whether the chain's custody covers the batch's payouts (an
+// ERC-20 transfer / Minter multisend from an account that lacks the balance fails).
+func (w *WChain) Funded(b *mtypes.BatchTx) bool {
+	have := new(big.Int)
+	if w.Custody[b.ExternalTokenId] != nil {
+		have.Set(w.Custody[b.ExternalTokenId])
+	}
+	if w.Paid[b.ExternalTokenId] != nil {
+		have.Sub(have, w.Paid[b.ExternalTokenId])
+	}
+	return have.Cmp(batchOut(b)) >= 0
+}
+
 // CanExecute tells whether the external side would accept the batch now.
 func (w *WChain) CanExecute(b *mtypes.BatchTx) bool {
 	if w.Executed[b.BatchNonce] {
+		return false
+	}
+	if w.CheckFunds && !w.Funded(b) {
 		return false
 	}
 	if w.Name == "minter" {
@@ -81,11 +110,7 @@ func (w *WChain) Execute(b *mtypes.BatchTx, feePaid *big.Int, payer string) {
 	} else {
 		w.LastExec[b.ExternalTokenId] = b.BatchNonce
 	}
-	out := new(big.Int)
-	for _, tx := range b.Transactions {
-		out.Add(out, tx.Token.Amount.BigInt())
-		out.Add(out, tx.Fee.Amount.BigInt())
-	}
+	out := batchOut(b)
 	if w.Paid[b.ExternalTokenId] == nil {
 		w.Paid[b.ExternalTokenId] = new(big.Int)
 	}
